@@ -603,3 +603,95 @@ Example C14_refuted_scripts_refused :
                      EAddNode 0 "o" (st_op "o") ["t"] None; EAddEdge 0 "u" "o" (Some (PInt 0)) ] = false.
 Proof. exact refuted_scripts_refused. Qed.
 Print Assumptions C14_refuted_scripts_refused.
+
+(** ---- "model_ok" (Proofs/C14_ModelOk.v): the model's own edit step passes the decidable property
+    clause [op_ok] that the correspondence check evaluates on the implementation's before/after
+    dumps.  So the clause is satisfiable at every step a script can reach, and wherever model and
+    implementation agree it holds of the implementation's dumps.  [become_hazard o m = false] says
+    that a become does not replace a node by itself or one of its descendants; [simple]: one edge
+    per ordered pair of nodes (not implied by [consistent_b], needed: [C14_model_op_ok_needs_simple];
+    free on script-reachable models: [C14_model_op_ok_reachable]).  [edge_hazard] is not needed. *)
+From Elfi Require Import Proofs.C14_ModelOk.
+
+Theorem C14_snet_eqb_refl : forall m, snet_eqb m m = true.
+Proof. exact snet_eqb_refl. Qed.
+Print Assumptions C14_snet_eqb_refl.
+
+Theorem C14_model_op_ok :
+  forall m o m',
+    consistent_b m = true -> simple (s_edges m) ->
+    step_model m o = Ok m' -> become_hazard o m = false ->
+    op_ok o m m' = true.
+Proof. exact model_op_ok. Qed.
+Print Assumptions C14_model_op_ok.
+
+Theorem C14_model_op_ok_reachable :
+  forall ops ms m o m',
+    run [empty_net] ops = Ok ms -> In m ms -> consistent_b m = true ->
+    step_model m o = Ok m' -> become_hazard o m = false ->
+    op_ok o m m' = true.
+Proof. exact model_op_ok_reachable. Qed.
+Print Assumptions C14_model_op_ok_reachable.
+
+(** per operation, with the hypotheses each one really uses: none for a state write and a removal;
+    for a become only the acyclicity check of [consistent_b] and [simple] *)
+Theorem C14_model_op_ok_setflag :
+  forall h m n f b m', step_model m (ESetFlag h n f b) = Ok m' -> op_ok (ESetFlag h n f b) m m' = true.
+Proof. exact model_op_ok_setflag. Qed.
+Print Assumptions C14_model_op_ok_setflag.
+
+Theorem C14_model_op_ok_remove :
+  forall h m n m', step_model m (ERemove h n) = Ok m' -> op_ok (ERemove h n) m m' = true.
+Proof. exact model_op_ok_remove. Qed.
+Print Assumptions C14_model_op_ok_remove.
+
+Theorem C14_model_op_ok_become :
+  forall h m n u m',
+    acyclic_b m = true -> simple (s_edges m) ->
+    step_model m (EBecome h n u) = Ok m' -> become_hazard (EBecome h n u) m = false ->
+    op_ok (EBecome h n u) m m' = true.
+Proof. exact model_op_ok_become. Qed.
+Print Assumptions C14_model_op_ok_become.
+
+(** [simple] cannot be dropped: with two edges n -> c (parameters 0 and 1) the model is
+    [consistent_b], no hazard flag is raised, and the model's become step -- which re-adds the
+    out-edges of [n] with DiGraph semantics -- keeps one of the two, failing "keeps its children". *)
+Theorem C14_model_op_ok_needs_simple :
+  let st id := st0 None true false id in
+  let m := {| s_nodes := [("n", st "n"); ("u", st "u"); ("c", st "c")];
+              s_edges := [("n", "c", PInt 0); ("n", "c", PInt 1)]; s_observed := [] |} in
+  consistent_b m = true /\ become_hazard (EBecome 0 "n" "u") m = false
+  /\ edge_hazard (EBecome 0 "n" "u") m = false
+  /\ match step_model m (EBecome 0 "n" "u") with
+     | Ok m' => op_ok (EBecome 0 "n" "u") m m' = false /\ consistent_b m' = true
+     | Err _ => False
+     end.
+Proof. exact become_needs_simple. Qed.
+Print Assumptions C14_model_op_ok_needs_simple.
+
+(** Non-vacuity: a 4-node model ([a] parent of [u] positionally and of [n] by keyword, [c] child of
+    [n], data on both); the hypotheses of [C14_model_op_ok] hold and the become step passes the
+    clause by computation: [n] keeps its child, its only parent is now [u]'s, its data are [u]'s. *)
+Example C14_model_op_ok_example :
+  let st id := st0 None true false id in
+  let m := {| s_nodes := [("a", st "a"); ("n", st "n"); ("u", st "u"); ("c", st "c")];
+              s_edges := [("a", "n", PStr "kw"); ("a", "u", PInt 0); ("n", "c", PInt 0)];
+              s_observed := [("n", VConst 1); ("u", VConst 2)] |} in
+  consistent_b m = true /\ uniq_b (s_edges m) = true
+  /\ become_hazard (EBecome 0 "n" "u") m = false
+  /\ match step_model m (EBecome 0 "n" "u") with
+     | Ok m' => op_ok (EBecome 0 "n" "u") m m' = true /\ has "u" (s_nodes m') = false
+                /\ children m' "n" = [("c", PInt 0)]
+                /\ preds (s_edges m') "n" = [("a", PInt 0)] /\ lookup "n" (s_observed m') = Some (VConst 2)
+     | Err _ => False
+     end.
+Proof. vm_compute. repeat split. Qed.
+Print Assumptions C14_model_op_ok_example.
+
+(** ... and the general theorem applies to it *)
+Example C14_model_op_ok_example_applied :
+  forall m', step_model mo_net (EBecome 0 "n" "u") = Ok m' -> op_ok (EBecome 0 "n" "u") mo_net m' = true.
+Proof.
+  intros m' H. apply C14_model_op_ok; [reflexivity | apply uniq_simple, uniq_b_sound; reflexivity | exact H | reflexivity].
+Qed.
+Print Assumptions C14_model_op_ok_example_applied.
